@@ -367,22 +367,23 @@ class _GenTimeout(Exception):
 
 
 def _real_pretty_ok(blk: bytes) -> bool:
-    """True when the real pretty functions accept the block (watchdog: a hanging decoder must not hang the generator)."""
+    """True when the real pretty functions accept the block.  CPU-time watchdog (immune to machine load): a hanging
+    decoder must not hang the generator; such a block is kept so that the hang is observed and reported through impl."""
     def on_alarm(signum, frame):
         raise _GenTimeout()
 
-    saved = signal.signal(signal.SIGALRM, on_alarm)
-    signal.setitimer(signal.ITIMER_REAL, 2.0)
+    saved = signal.signal(signal.SIGVTALRM, on_alarm)
+    signal.setitimer(signal.ITIMER_VIRTUAL, 5.0)
     try:
         B.BeaconConfig(blk).settings_map("enum", pretty=True)
         return True
     except _GenTimeout:
-        return True  # keep it: the timeout is then observed (and reported) through impl
+        return True
     except Exception:  # noqa: BLE001
         return False
     finally:
-        signal.setitimer(signal.ITIMER_REAL, 0)
-        signal.signal(signal.SIGALRM, saved)
+        signal.setitimer(signal.ITIMER_VIRTUAL, 0)
+        signal.signal(signal.SIGVTALRM, saved)
 
 
 def gen(tier, rng, shard, nshards):
@@ -657,18 +658,31 @@ def _maps(blk: bytes, show_item):
 _timeouts = 0
 
 
+class Timeout(Exception):
+    """rendered `exc Timeout` by the runner (same name as its own watchdog exception)"""
+
+
+def _on_cpu_alarm(signum, frame):
+    raise Timeout()
+
+
 def impl(stream, line):
-    # every call takes milliseconds; shorten the runner's 10 s watchdog so that a non-terminating decoder
-    # (e.g. the User-Agent scan without its end-of-data check) is reported as `exc Timeout` quickly.
-    # After three timeouts in a worker the run is failing anyway and the budget drops further.
+    # Every call takes milliseconds of CPU.  A CPU-time watchdog (ITIMER_VIRTUAL: immune to machine load, unlike the
+    # runner's 10 s wall-clock alarm, which stays armed) reports a non-terminating decoder (e.g. the User-Agent scan
+    # without its end-of-data check) as `exc Timeout` quickly.  After three timeouts in a worker the run is failing
+    # anyway and the budget drops further.
     global _timeouts
-    signal.setitimer(signal.ITIMER_REAL, 5.0 if _timeouts < 3 else 0.25)
+    saved = signal.signal(signal.SIGVTALRM, _on_cpu_alarm)
+    signal.setitimer(signal.ITIMER_VIRTUAL, 5.0 if _timeouts < 3 else 0.25)
     try:
         return _impl(stream, line)
     except BaseException as e:  # noqa: BLE001
         if type(e).__name__ == "Timeout":
             _timeouts += 1
         raise
+    finally:
+        signal.setitimer(signal.ITIMER_VIRTUAL, 0)
+        signal.signal(signal.SIGVTALRM, saved)
 
 
 def _impl(stream, line):
@@ -783,4 +797,12 @@ def oracle(stream, line, out):
 
 
 def shrink(stream, line):
-    yield from C.shrink_tokens(line)
+    for cand in C.shrink_tokens(line):
+        if stream == "real":
+            # stay inside the stream's domain: blocks on which a real pretty function raises are C03's subject
+            try:
+                if not _real_pretty_ok(C.unhx(cand.split()[1])):
+                    continue
+            except Exception:  # noqa: BLE001
+                continue
+        yield cand
